@@ -235,11 +235,19 @@ def shape(n, i):
 
 
 def judge_case(w, impl, res, n, i, kind, detail, raw, height, merkle, via_network):
-    """Run one case on the implementation and judge it.  Returns the log line (for replay)."""
-    res.count('evaluations')
+    """Run one case on the implementation (fresh Transaction object) and judge it.  Returns the log line."""
     tx, exc = impl.verify(raw, height, merkle, via_network)
+    return judge_tx(w, res, n, i, kind, detail, raw, height, merkle, via_network, tx, exc)
+
+
+def judge_tx(w, res, n, i, kind, detail, raw, height, merkle, via_network, tx, exc, history=None):
+    """Judge the state of a Transaction object after maybe_verify_transaction(tx, height, merkle) - the last call
+    of `history` when the object went through several calls."""
+    res.count('evaluations')
     rep = {'N': w.N, 'n': n, 'i': i, 'kind': kind, 'detail': list(detail) if isinstance(detail, tuple) else detail,
            'via_network': via_network}
+    if history:
+        rep['history'] = list(history)
     if tx is None:
         res.tally('tx_mutant_breaks_wire_format')
         return f'{kind} {detail}: transaction bytes no longer parse'
@@ -252,11 +260,15 @@ def judge_case(w, impl, res, n, i, kind, detail, raw, height, merkle, via_networ
         res.tally('recorded-height-differs-from-supplied-height')
         height = tx.height
     in_range, folds = expected(w, raw, height, merkle)
-    line = (f'n={n} i={i} {kind} {detail} net={via_network}: is_verified={verified} position={tx.position} '
+    line = (f'n={n} i={i} {kind} {detail} net={via_network}{" history=" + "/".join(map(str, history)) if history else ""}: '
+            f'is_verified={verified} position={tx.position} '
             f'height={tx.height} exc={exc}; reference: header_known={in_range} folds_to_root={folds}')
     sig = {'mutation': kind, 'shape': shape(n, i)}
+    if history:
+        # one Transaction object, several calls: the class is the history, not the tree shape
+        sig = {'mutation': history[1] if kind == 'genuine' else kind, 'history': history[0]}
     if kind == 'genuine':
-        res.distinct_add('nontrivial', ('genuine', n, i))
+        res.distinct_add('nontrivial', ('genuine', n, i, repr(history)))
         if not verified or exc:
             res.violation(dict(sig, kind='genuine-proof-rejected'), line, rep)
         elif tx.position != i or tx.height != height:
@@ -264,7 +276,7 @@ def judge_case(w, impl, res, n, i, kind, detail, raw, height, merkle, via_networ
         else:
             res.count('genuine_accepted')
         return line
-    res.distinct_add('nontrivial', (kind, n, i, repr(detail)))
+    res.distinct_add('nontrivial', (kind, n, i, repr(detail), repr(history)))
     if not in_range or height == 0:
         if verified and not in_range:
             res.violation(dict(sig, kind='verified-without-header'), line, rep)
@@ -291,6 +303,32 @@ def judge_case(w, impl, res, n, i, kind, detail, raw, height, merkle, via_networ
     return line
 
 
+HISTORY_SKIP = ('tx-byte', 'tx-other', 'branch-node-swap')      # these change the transaction / are bit-flip-like
+
+
+def object_history(w, impl, res, n, i, order, kind, detail, height, merkle):
+    """ONE Transaction object through two calls (the wallet's 'transaction_show' re-verification):
+    order 'genuine-then-mutant' or 'mutant-then-genuine'; the object's final state is judged exactly like the
+    single call that came last."""
+    from lbry.wallet.transaction import Transaction
+    raw = w.raws[n][i]
+    g, h = genuine(w, n, i), height_of(n)
+    tx = Transaction(raw)
+    steps = [(h, g), (height, merkle)] if order == 'genuine-then-mutant' else [(height, merkle), (h, g)]
+    exc = None
+    for hh, mm in steps:
+        exc = None
+        impl.net.answer = mm
+        try:
+            impl.loop.run(impl.ledger.maybe_verify_transaction(tx, hh, mm))
+        except Exception as e:   # noqa - judged
+            exc = type(e).__name__
+    res.count('object_histories')
+    if order == 'genuine-then-mutant':
+        return judge_tx(w, res, n, i, kind, detail, raw, height, merkle, False, tx, exc, history=(order, kind))
+    return judge_tx(w, res, n, i, 'genuine', detail, raw, h, g, False, tx, exc, history=(order, kind))
+
+
 def direct_root_check(w, res, n, i):
     """get_root_of_merkle_tree called directly on the genuine proof."""
     from lbry.wallet.ledger import Ledger
@@ -308,26 +346,6 @@ def direct_root_check(w, res, n, i):
 NETWORK_TOO = ('genuine', 'height', 'height-arg-only', 'height-dict-only', 'no-merkle-key', 'pos-bit', 'branch-drop')
 
 
-def reused_object_history(w, impl, res, n, i):
-    """Outside the statement's quantifier (inputs, fresh transaction objects as the wallet creates them):
-    what happens to an already verified Transaction object that is presented again.  Tallied only."""
-    from lbry.wallet.transaction import Transaction
-    g = genuine(w, n, i)
-    h = height_of(n)
-    tx = Transaction(w.raws[n][i])
-    impl.loop.run(impl.ledger.maybe_verify_transaction(tx, h, g))
-    if not tx.is_verified:
-        return
-    bad = dict(g, pos=i ^ 1) if n > 1 and not (i ^ 1 >= n) else dict(g, merkle=g['merkle'] + ['00' * 32])
-    impl.loop.run(impl.ledger.maybe_verify_transaction(tx, h, bad))
-    res.tally('interpretation_only:reused-tx-object-bad-proof-' + ('keeps' if tx.is_verified else 'clears') + '-flag')
-    tx = Transaction(w.raws[n][i])
-    impl.loop.run(impl.ledger.maybe_verify_transaction(tx, h, g))
-    impl.loop.run(impl.ledger.maybe_verify_transaction(tx, w.length + 5, dict(g, block_height=w.length + 5)))
-    res.tally('interpretation_only:reused-verified-tx-object-at-unknown-height-' +
-              ('keeps' if tx.is_verified else 'clears') + '-flag')
-
-
 def work(item, res):
     N, n, reduced, full_swap_max = item
     w = world(N)
@@ -336,8 +354,6 @@ def work(item, res):
     try:
         for i in range(n):
             direct_root_check(w, res, n, i)
-            if i in (0, n - 1):
-                reused_object_history(w, impl, res, n, i)
             g = genuine(w, n, i)
             for via in (False, True):
                 judge_case(w, impl, res, n, i, 'genuine', 0, w.raws[n][i], height_of(n), g, via)
@@ -354,9 +370,229 @@ def work(item, res):
                 judge_case(w, impl, res, n, i, kind, detail, raw, height, merkle, False)
                 if kind in NETWORK_TOO:
                     judge_case(w, impl, res, n, i, kind, detail, raw, height, merkle, True)
+                if kind not in HISTORY_SKIP and (not reduced or i in (0, n - 1, n // 2)):
+                    for order in ('genuine-then-mutant', 'mutant-then-genuine'):
+                        object_history(w, impl, res, n, i, order, kind, detail, height, merkle)
             res.count('executions')
     finally:
         impl.close()
+
+
+# ---- cache / reorganisation family -----------------------------------------------------------------
+# request_transactions(cached=True) (used for resolve / claim_search results) serves verified transactions
+# from Ledger._tx_cache.  Anything it returns as verified must have a proof folding to the CURRENT local
+# header at its recorded height - also after update_headers()/receive_header() replaced the top headers.
+
+REORG_LEN = 8                    # old chain: heights 0..7
+REORG_BLOCK_SIZES = {3: 2, 4: 3, 5: 1, 6: 4, 7: 2}
+
+
+class ReorgWorld:
+    """Old chain, and for k = 1..3 replaced top headers a new chain (same length, or one longer); a replaced
+    block is re-mined at the same height with the same transactions in reverse order plus a new one."""
+
+    def __init__(self):
+        from refs import merkle as M
+        self.M = M
+        self.txs = {h: [make_raw_tx(40 + h, i) for i in range(sz)] for h, sz in REORG_BLOCK_SIZES.items()}
+        self.old_blocks = {h: list(self.txs.get(h, [make_raw_tx(60 + h, 0)])) for h in range(REORG_LEN)}
+        self.old_chain = self.build({}, self.old_blocks, REORG_LEN)
+
+    def build(self, base_headers, blocks, length, first_new=0, salt=0):
+        M = self.M
+        hdrs = [base_headers[h] for h in range(first_new)]
+        prev = M.sha256d(hdrs[-1]) if hdrs else b'\0' * 32
+        for h in range(first_new, length):
+            root = M.root([M.sha256d(r) for r in blocks[h]])
+            raw = (struct.pack('<I', 1) + prev + root + b'\x44' * 32 +
+                   struct.pack('<III', 1500000000 + 150 * h + salt, 0x207fffff, h))
+            hdrs.append(raw)
+            prev = M.sha256d(raw)
+        return hdrs
+
+    def new_chain(self, k, longer):
+        length = REORG_LEN + (1 if longer else 0)
+        first_new = REORG_LEN - k
+        blocks = dict(self.old_blocks)
+        for h in range(first_new, REORG_LEN):
+            blocks[h] = list(reversed(self.old_blocks[h])) + [make_raw_tx(70 + h, k)]
+        if longer:
+            blocks[REORG_LEN] = [make_raw_tx(80, k)]
+        return self.build(dict(enumerate(self.old_chain)), blocks, length, first_new, salt=7), blocks
+
+
+class ReorgServer:
+    """Stub wallet server: headers and transactions of its current chain (mode 'stale': it keeps answering
+    transaction requests from the old chain)."""
+
+    def __init__(self, world):
+        self.w = world
+        self.on_header = _Stream()
+        self.on_status = _Stream()
+        self.chain, self.blocks = world.old_chain, world.old_blocks
+        self.tx_view = None              # (chain, blocks) used for transaction answers; None = current
+        self.supplied = {}               # txid -> list of (height, pos, [branch]) proofs ever supplied
+        self.is_connected = True
+        self.remote_height = len(self.chain) - 1
+        self.batch_calls = 0
+
+    async def retriable_call(self, function, *args, **kwargs):
+        return await function(*args, **kwargs)
+
+    async def get_headers(self, height, count=10000, b64=False):
+        part = self.chain[height:height + count]
+        return {'hex': b''.join(part).hex(), 'count': len(part), 'max': 2016}
+
+    async def get_transaction_batch(self, txids, restricted=True):
+        M = self.w.M
+        self.batch_calls += 1
+        blocks = self.tx_view if self.tx_view is not None else self.blocks
+        out = {}
+        for txid in txids:
+            for h, raws in blocks.items():
+                leaves = [M.sha256d(r) for r in raws]
+                ids = [M.to_hex(x) for x in leaves]
+                if txid in ids:
+                    i = ids.index(txid)
+                    br = [M.to_hex(x) for x in M.branch(leaves, i)]
+                    self.supplied.setdefault(txid, []).append((h, i, br))
+                    out[txid] = (raws[i].hex(), {'block_height': h, 'merkle': br, 'pos': i})
+                    break
+        return out
+
+
+class _StubDB:
+    ledger = None
+
+    def __init__(self):
+        self.rewinds = []
+
+    async def rewind_blockchain(self, height):
+        self.rewinds.append(height)
+
+
+def reorg_scenarios():
+    out = [('none', 0, False, 'honest')]
+    for k in (1, 2, 3):
+        for longer in (True, False):
+            for delivery in ('subscription', 'poll'):
+                for mode in ('honest', 'stale'):
+                    out.append((delivery, k, longer, mode))
+    return out
+
+
+def run_reorg_scenario(sc, res):
+    """-> log lines.  Steps: cached request A, reorganisation through the real header path, cached request B
+    (twice); every transaction returned as verified is judged against the local header at its recorded height."""
+    from vf.vloop import VLoop
+    from lbry.wallet.ledger import Ledger
+    from lbry.wallet.header import Headers
+    from refs import merkle as M
+    delivery, k, longer, mode = sc
+    w = ReorgWorld()
+
+    class SyntheticHeaders(Headers):
+        validate_difficulty = False
+        genesis_hash = None
+        checkpoints = {}
+    loop = VLoop().activate()
+    log = []
+    rep = {'family': 'reorg', 'scenario': list(sc)}
+    sig_base = {'family': 'cache-reorg', 'delivery': delivery, 'replaced': k, 'new_chain': 'longer' if longer else 'same-length',
+                'server': mode}
+    try:
+        headers = SyntheticHeaders(':memory:')
+        loop.run(headers.open())
+        assert loop.run(headers.connect(0, b''.join(w.old_chain))) == REORG_LEN
+        server = ReorgServer(w)
+        ledger = Ledger({'db': _StubDB(), 'headers': headers, 'network': server})
+        headers.checkpoints = {}
+        wanted = [(M.to_hex(M.sha256d(r)), h) for h in sorted(w.txs) for r in w.txs[h]]
+
+        async def request():
+            got = []
+            async for txs in ledger.request_transactions(tuple(wanted), cached=True):
+                got.extend(txs.values())
+            return got
+
+        def local_root(h):
+            return bytes(headers.io.getbuffer())[h * 112 + 36:h * 112 + 68]
+
+        def judge(stage, got, must_verify):
+            seen = set()
+            for tx in got:
+                res.count('evaluations')
+                seen.add(tx.id)
+                leaf = M.sha256d(tx.raw)
+                ok_proof = False
+                if tx.is_verified and isinstance(tx.height, int) and 0 <= tx.height < len(headers):
+                    for (h, pos, br) in server.supplied.get(tx.id, []):
+                        if pos == tx.position and M.fold([M.from_hex(x) for x in br], pos, leaf) == local_root(tx.height):
+                            ok_proof = True
+                line = (f'{stage}: tx {tx.id[:12]}.. returned is_verified={tx.is_verified} height={tx.height} '
+                        f'position={tx.position}; a supplied proof folds to the current local header there: {ok_proof}')
+                if tx.is_verified and not ok_proof:
+                    res.violation(dict(sig_base, kind='returned-verified-against-replaced-or-missing-header', stage=stage),
+                                  line + f' | scenario {sc}', rep)
+                elif tx.is_verified:
+                    res.count('verified_and_consistent')
+                if must_verify.get(tx.id) is not None and not tx.is_verified:
+                    res.violation(dict(sig_base, kind='genuine-proof-rejected', stage=stage),
+                                  line + f' | scenario {sc}: the server supplied the genuine proof for the local chain', rep)
+                log.append(line)
+            return seen
+
+        # A: everything is genuine on the old chain
+        gotA = loop.run(request())
+        judge('request-A', gotA, {t: h for t, h in wanted})
+        callsA = server.batch_calls
+        # reorganisation
+        if delivery != 'none':
+            new_chain, new_blocks = w.new_chain(k, longer)
+            server.chain, server.blocks = new_chain, new_blocks
+            server.remote_height = len(new_chain) - 1
+            server.tx_view = w.old_blocks if mode == 'stale' else None
+            try:
+                if delivery == 'subscription':
+                    tip = len(new_chain) - 1
+                    loop.run(ledger.receive_header([{'height': tip, 'hex': new_chain[tip].hex()}]))
+                else:
+                    loop.run(ledger.update_headers())
+            except Exception as e:   # noqa - the header path is C07/C09 business; the cache oracle still applies
+                res.tally('reorg-delivery-raised-' + type(e).__name__)
+            local = bytes(headers.io.getbuffer())[:len(headers) * 112]
+            adopted = local == b''.join(new_chain)
+            log.append(f'reorganisation {sc}: local chain is now the {"new" if adopted else "old or a mixed"} one, len={len(headers)}')
+            res.tally('reorg-adopted' if adopted else 'reorg-not-adopted:' + delivery + ('-longer' if longer else '-same-length'))
+            if adopted:
+                res.witness('reorg_replaced_headers_below_cached_transactions')
+        else:
+            adopted = False
+        # B (twice): what may be verified now?
+        must = {}
+        if mode == 'honest':
+            chain_blocks = server.blocks if (delivery == 'none' or adopted) else None
+            if chain_blocks is not None:
+                for h, raws in chain_blocks.items():
+                    for r in raws:
+                        t = M.to_hex(M.sha256d(r))
+                        if (t, h) in wanted:
+                            must[t] = h
+        for stage in ('request-B', 'request-C'):
+            got = loop.run(request())
+            judge(stage, got, must)
+        if delivery == 'none' and server.batch_calls == callsA:
+            res.witness('cached_request_served_without_asking_the_server')
+        res.count('executions')
+        res.distinct_add('nontrivial', ('reorg',) + tuple(sc))
+    finally:
+        loop.shutdown()
+    return log
+
+
+def work_reorg(item, res):
+    for sc in item:
+        run_reorg_scenario(tuple(sc), res)
 
 
 def w_txid(w, n, i):
@@ -375,6 +611,8 @@ def run(ctx):
     items = [(N, n, False, fsm) for n in full] + [(N, n, True, fsm) for n in spot]
     items.sort(key=lambda it: it[1])       # smallest blocks first: the violation kept per signature is the simplest
     ctx.pmap(work, items)
+    scs = [list(sc) for sc in reorg_scenarios()]
+    ctx.pmap(work_reorg, [scs[k::4] for k in range(4)])
     w = world(N)
     ctx.res.sample({'block_size': 3, 'index': 2, 'genuine_proof': genuine(w, 3, 2),
                     'note': 'last leaf of an odd level: first branch element is the leaf itself'})
@@ -390,7 +628,12 @@ def run(ctx):
               'negative position with the same low bits; neighbouring branch elements exchanged; each '
               'branch element dropped; 8 one-element extensions; every tx byte xor 0x01 / 0x80; every other tx of the '
               'block; heights h-1, h+1 (roots differing from the genuine root in one bit), 0, -1, -2, len, len+1, 10^9; '
-              'answer without a merkle key.  Non-trivial/distinct = distinct (mutation kind, n, i, detail) tuples.'),
+              'answer without a merkle key.  Object histories: every such mutant (except tx-byte / other-tx / node swaps) '
+              'also as genuine-then-mutant and mutant-then-genuine on ONE Transaction object, final state judged like the '
+              'last call.  Cache/reorg family: cached request_transactions, then 1..3 top headers replaced through '
+              'receive_header / update_headers (new chain one longer or same length, honest or stale server), then the '
+              'cached request twice.  Non-trivial/distinct = distinct (mutation kind, n, i, detail, history) tuples and '
+              'reorg scenarios.'),
         exhaustive=True,
         bounds={'block_sizes_full': [full[0], full[-1]], 'block_sizes_reduced_sweep': spot, 'headers': w.length,
                 'every_tree_node_in_every_branch_slot_up_to_n': fsm},
@@ -398,12 +641,20 @@ def run(ctx):
                      'a position / sibling change that leaves the folded value unchanged is fold-equivalent (tallied)',
                      'the genesis height is never verified by design of the wallet (tallied, not demanded)',
                      'the legacy claim-trie verify_proof is unused by the wallet and not covered'],
-        expected_witnesses=['genuine_proof_through_duplicated_node', 'branch_of_five_or_more_levels'],
+        expected_witnesses=['genuine_proof_through_duplicated_node', 'branch_of_five_or_more_levels',
+                            'reorg_replaced_headers_below_cached_transactions',
+                            'cached_request_served_without_asking_the_server'],
     )
 
 
 def replay(data):
     from vf.core import Result
+    if data.get('family') == 'reorg':
+        res = Result()
+        log = '\n'.join(run_reorg_scenario(tuple(data['scenario']), res))
+        for v in res.violations.values():
+            log += '\nVIOLATION: ' + v['what']
+        return bool(res.violations), log
     w = world(int(data['N']))
     n, i, kind = int(data['n']), int(data['i']), data['kind']
     res = Result()
@@ -419,11 +670,17 @@ def replay(data):
             # the check presents the genuine proof of (n, i) to the same ledger before any mutant: same history here
             for via in (False, True):
                 judge_case(w, impl, Result(), n, i, 'genuine', 0, w.raws[n][i], height_of(n), genuine(w, n, i), via)
-            if kind == 'genuine':
-                case = ('genuine', 0, w.raws[n][i], height_of(n), genuine(w, n, i))
+            hist = data.get('history')
+            if hist:
+                mkind = hist[1]
+                case = next(c for c in mutations(w, n, i) if c[0] == mkind and c[1] == detail)
+                log = object_history(w, impl, res, n, i, hist[0], mkind, detail, case[3], case[4])
             else:
-                case = next(c for c in mutations(w, n, i) if c[0] == kind and c[1] == detail)
-            log = judge_case(w, impl, res, n, i, *case, bool(data['via_network']))
+                if kind == 'genuine':
+                    case = ('genuine', 0, w.raws[n][i], height_of(n), genuine(w, n, i))
+                else:
+                    case = next(c for c in mutations(w, n, i) if c[0] == kind and c[1] == detail)
+                log = judge_case(w, impl, res, n, i, *case, bool(data['via_network']))
             log += f'\nproof supplied: {case[4]}'
         finally:
             impl.close()
